@@ -267,7 +267,7 @@ func panicSite(stack string) string {
 	for i, l := range lines {
 		if strings.HasPrefix(l, "github.com/go-spring/log.") && !strings.Contains(l, "verifsim") {
 			fn := l
-			if j := strings.Index(fn, "("); j > 0 {
+			if j := strings.LastIndex(fn, "("); j > 0 {
 				fn = fn[:j]
 			}
 			fn = strings.TrimPrefix(fn, "github.com/go-spring/log.")
